@@ -412,6 +412,20 @@ async def run_c03(spec: dict[str, Any], ctx: Ctx, info: dict[str, Any]) \
             if moved:
                 await check_message(ctx, c, len(msgs) + 1, msgs[0], rng,
                                     'move-')
+        # a second connection that had looked at Copies before reads the
+        # same bytes (per-connection caches of parsed content)
+        c2 = Conn(2, Sched())
+        c2.start(env.imap)
+        await c2.greeting()
+        await c2.simple(b'LOGIN u1 pw1')
+        r = await c2.simple(b'EXAMINE Copies')
+        if r.ok and not c2.dead:
+            for n, b in enumerate(msgs, 1):
+                att = await fetch1(c2, n, b'BODY.PEEK[] RFC822.SIZE')
+                ctx.count('second_connection_comparisons')
+                if att is not None:
+                    ctx.compare('other-connection-body', b,
+                                att.get(b'BODY[]'), b, b'BODY[]')
         # a re-created mailbox re-uses UIDs: content must be the new one
         if not c.dead and spec.get('recreate'):
             await c.simple(b'CLOSE')
@@ -435,6 +449,18 @@ async def run_c03(spec: dict[str, Any], ctx: Ctx, info: dict[str, Any]) \
                         if c.dead:
                             info['aborted'] = 'connection-died'
                             return
+                # ... also for the connection that knew the old incarnation
+                # (it must be told BYE or be shown the new content)
+                if not c2.dead:
+                    r = await c2.simple(b'EXAMINE Copies')
+                    if r.ok and not c2.dead:
+                        for n, b2 in enumerate(fresh, 1):
+                            att = await fetch1(c2, n, b'BODY.PEEK[]')
+                            ctx.count('second_connection_comparisons')
+                            if att is not None:
+                                ctx.compare('other-connection-recreated-body',
+                                            b2, att.get(b'BODY[]'), b2,
+                                            b'BODY[]')
         if not c.dead:
             await c.simple(b'LOGOUT')
     finally:
